@@ -158,7 +158,10 @@ func fieldCase(side, path, value string) {
 
 // strings with line breaks at first / last / every position, CRLF, lone CR, U+2028, tabs
 func brokenStrings(rng *Rng, thorough bool) []string {
-	bases := []string{"Abc def", "x", "", "{\"a\": [1, 2],\n  \"b\": \"c d\"}", "Tïtle € 1"}
+	// the last bases carry characters that are special to formatting functions, templates and regular
+	// expressions (seed C07-7: a payload used as a fmt format string loses everything after a '%')
+	bases := []string{"Abc def", "x", "", "{\"a\": [1, 2],\n  \"b\": \"c d\"}", "Tïtle € 1",
+		"Calibration 50% done", "{\"Unit\": \"%\", \"Label\": \"Gain %d %s %v\"}", "100%% a\\nb $1 ${x} \\1 %[1]d %", "%", "a%"}
 	breaks := []string{"\n", "\r\n", "\r", "\u2028", "\t", "\n\n", " \n ", "\n\t", "\u00a0\n", "\n\u3000"}
 	var res []string
 	for _, b := range bases {
@@ -180,7 +183,7 @@ func brokenStrings(rng *Rng, thorough bool) []string {
 	for i := 0; i < n; i++ { // random mixtures, incl. invalid UTF-8 and Unicode spaces at line ends
 		var sb strings.Builder
 		for k := rng.Intn(8); k > 0; k-- {
-			sb.WriteString([]string{"a", "b c", "\n", "\r\n", " ", "\t", "\u00e9", "\xff", "\x80", "\u00a0", "\u2028", ">", "<t>", "=", "\xe2\x80"}[rng.Intn(15)])
+			sb.WriteString([]string{"a", "b c", "\n", "\r\n", " ", "\t", "\u00e9", "\xff", "\x80", "\u00a0", "\u2028", ">", "<t>", "=", "\xe2\x80", "%", "%d", "%s%", "\\", "$1"}[rng.Intn(20)])
 		}
 		res = append(res, sb.String())
 	}
